@@ -387,3 +387,37 @@ Proof.
   eexists _, _. split; [vm_compute; reflexivity|]. split; [vm_compute; reflexivity|].
   split; [vm_compute; reflexivity | vm_compute; discriminate].
 Qed.
+
+(** *** [namespaces_dict], text.  Under two dictionaries (each leaving a priority prefix free for
+    the shapes namespace: both runs succeed) the documents spell IRIs differently and declare
+    different prefixes.  [expand_text] acts on the Spec lexer's token stream: it drops the
+    leading PREFIX directives and replaces every prefixed name by the IRI it denotes under the
+    document's OWN declarations.  On C05's domain for both runs the two expanded streams are
+    EQUAL: the two texts state the same constraints. *)
+Theorem C13_text_namespaces : forall fa ns' c (thr : F fa) g ns1 l1 ns2 l2,
+  run_shapes fa (with_rns ns' c) thr g = inl (ns1, l1) -> run_shapes fa c thr g = inl (ns2, l2) ->
+  C05Dom.C05_dom (sercfg_of (with_rns ns' c) ns1) l1 = true -> C05Dom.C05_dom (sercfg_of c ns2) l2 = true ->
+  exists t1 t2 ts1 ts2, run_shexc fa (with_rns ns' c) thr g = inl t1 /\ run_shexc fa c thr g = inl t2 /\
+                        ShexcGrammar.lex t1 = Some ts1 /\ ShexcGrammar.lex t2 = Some ts2 /\
+                        expand_text ts1 = expand_text ts2.
+Proof. exact run_shexc_lex_namespaces. Qed.
+Print Assumptions C13_text_namespaces.
+
+Definition ns_user : nsdict := [(Str "http://ex.org/", Str "ex"); (Str "http://www.w3.org/2001/XMLSchema#", Str "xsd")].
+
+Example C13_text_namespaces_acts :
+  (exists ns1 l1 ns2 l2,
+     run_shapes BAlg (with_rns ns_user base_rcfg) thr0 g_opts = inl (ns1, l1) /\
+     run_shapes BAlg base_rcfg thr0 g_opts = inl (ns2, l2) /\
+     C05Dom.C05_dom (sercfg_of (with_rns ns_user base_rcfg) ns1) l1 = true /\
+     C05Dom.C05_dom (sercfg_of base_rcfg ns2) l2 = true) /\
+  ShexcGrammar.lex (text_of (with_rns ns_user base_rcfg)) <> ShexcGrammar.lex (text_of base_rcfg) /\
+  option_map expand_text (ShexcGrammar.lex (text_of (with_rns ns_user base_rcfg))) =
+  option_map expand_text (ShexcGrammar.lex (text_of base_rcfg)) /\
+  ShexcGrammar.lex (text_of base_rcfg) <> None.
+Proof.
+  split.
+  - eexists _, _, _, _. split; [vm_compute; reflexivity|]. split; [vm_compute; reflexivity|].
+    split; vm_compute; reflexivity.
+  - split; [vm_compute; discriminate|]. split; [vm_compute; reflexivity | vm_compute; discriminate].
+Qed.
